@@ -233,6 +233,140 @@ theorem C12_expand_count (r : Ranking) : (linearise r).length = tieDivisor r := 
   unfold tieDivisor
   rw [key r 1]; simp
 
+/-! ### "every linear order consistent with the ballot, each exactly once" -/
+
+theorem mem_insertEverywhere (x : Cand) (l o : List Cand) :
+    o ∈ insertEverywhere x l ↔ ∃ a b, l = a ++ b ∧ o = a ++ x :: b := by
+  induction l generalizing o with
+  | nil =>
+    simp only [insertEverywhere, List.mem_singleton]
+    constructor
+    · intro h; exact ⟨[], [], rfl, by simp [h]⟩
+    · rintro ⟨a, b, hab, ho⟩
+      have : a = [] ∧ b = [] := by simpa using hab.symm
+      rw [ho, this.1, this.2]; rfl
+  | cons y ys ih =>
+    simp only [insertEverywhere, List.mem_cons, List.mem_map]
+    constructor
+    · rintro (h | ⟨o', ho', rfl⟩)
+      · exact ⟨[], y :: ys, rfl, by simp [h]⟩
+      · obtain ⟨a, b, hab, rfl⟩ := (ih o').1 ho'
+        exact ⟨y :: a, b, by simp [hab], by simp⟩
+    · rintro ⟨a, b, hab, ho⟩
+      cases a with
+      | nil =>
+        left
+        simp only [List.nil_append] at hab ho
+        rw [ho, ← hab]
+      | cons a0 as =>
+        right
+        simp only [List.cons_append, List.cons.injEq] at hab
+        refine ⟨as ++ x :: b, (ih _).2 ⟨as, b, hab.2, rfl⟩, ?_⟩
+        rw [ho, hab.1]; simp
+
+/-- **Completeness and soundness of the enumeration**: the listed orders are exactly the
+rearrangements of the tied group -/
+theorem mem_perms_iff (l o : List Cand) : o ∈ perms l ↔ o.Perm l := by
+  induction l generalizing o with
+  | nil => simp [perms]
+  | cons x xs ih =>
+    simp only [perms, List.mem_flatMap]
+    constructor
+    · rintro ⟨p, hp, ho⟩
+      obtain ⟨a, b, hab, rfl⟩ := (mem_insertEverywhere x p o).1 ho
+      have hpx := (ih p).1 hp
+      rw [hab] at hpx
+      exact (List.perm_middle).trans (List.Perm.cons x hpx)
+    · intro ho
+      have hx : x ∈ o := ho.mem_iff.2 (by simp)
+      obtain ⟨a, b, rfl⟩ := List.append_of_mem hx
+      have : (a ++ b).Perm xs := by
+        have h1 : (x :: (a ++ b)).Perm (x :: xs) := (List.perm_middle.symm).trans ho
+        exact List.Perm.cons_inv h1
+      exact ⟨a ++ b, (ih _).2 this, (mem_insertEverywhere x _ _).2 ⟨a, b, rfl, rfl⟩⟩
+
+theorem insertEverywhere_nodup (x : Cand) (l : List Cand) (hx : x ∉ l) : (insertEverywhere x l).Nodup := by
+  induction l with
+  | nil => simp [insertEverywhere]
+  | cons y ys ih =>
+    have hxy : x ≠ y := fun e => hx (by simp [e])
+    have hxys : x ∉ ys := fun e => hx (by simp [e])
+    simp only [insertEverywhere, List.nodup_cons, List.mem_map, not_exists, not_and]
+    refine ⟨?_, ?_⟩
+    · intro o _ heq
+      have := List.head_eq_of_cons_eq heq
+      exact hxy this.symm
+    · exact (ih hxys).map (fun a b hab => List.tail_eq_of_cons_eq hab)
+
+theorem erase_of_mem_insertEverywhere (x : Cand) (l o : List Cand) (hx : x ∉ l) (ho : o ∈ insertEverywhere x l) :
+    o.erase x = l := by
+  obtain ⟨a, b, rfl, rfl⟩ := (mem_insertEverywhere x l o).1 ho
+  have hxa : x ∉ a := fun e => hx (List.mem_append_left _ e)
+  rw [List.erase_append_right _ hxa]
+  simp
+
+/-- **Each order exactly once** (for a duplicate-free tied group) -/
+theorem perms_nodup (l : List Cand) (h : l.Nodup) : (perms l).Nodup := by
+  induction l with
+  | nil => simp [perms]
+  | cons x xs ih =>
+    rw [List.nodup_cons] at h
+    have hps := ih h.2
+    have hnot : ∀ p ∈ perms xs, x ∉ p := fun p hp hxp => h.1 (((mem_perms_iff xs p).1 hp).mem_iff.1 hxp)
+    simp only [perms]
+    rw [List.nodup_flatMap]
+    refine ⟨fun p hp => insertEverywhere_nodup x p (hnot p hp), ?_⟩
+    refine List.Pairwise.imp_of_mem ?_ hps
+    intro p p' hp hp' hne
+    intro o ho ho'
+    exact hne ((erase_of_mem_insertEverywhere x p o (hnot p hp) ho).symm.trans
+      (erase_of_mem_insertEverywhere x p' o (hnot p' hp') ho'))
+
+/-- the linear orders consistent with a ranking: one rearrangement of every position, in order -/
+theorem mem_linearise_iff (r : Ranking) (o : List Cand) :
+    o ∈ linearise r ↔ ∃ parts : List (List Cand), o = parts.flatten ∧ List.Forall₂ (fun part s => part.Perm s) parts r := by
+  induction r generalizing o with
+  | nil =>
+    simp only [linearise, List.mem_singleton]
+    constructor
+    · intro h; exact ⟨[], by simp [h], List.Forall₂.nil⟩
+    · rintro ⟨parts, ho, hf⟩
+      cases hf; simpa using ho
+  | cons s rest ih =>
+    simp only [linearise, List.mem_flatMap, List.mem_map]
+    constructor
+    · rintro ⟨o1, ho1, o2, ho2, rfl⟩
+      obtain ⟨parts, rfl, hf⟩ := (ih o2).1 ho2
+      exact ⟨o1 :: parts, by simp, List.Forall₂.cons ((mem_perms_iff s o1).1 ho1) hf⟩
+    · rintro ⟨parts, ho, hf⟩
+      cases hf with
+      | cons h1 h2 =>
+        rename_i p1 ps
+        exact ⟨p1, (mem_perms_iff s p1).2 h1, ps.flatten, (ih _).2 ⟨ps, rfl, h2⟩, by simp [ho]⟩
+
+/-- **Every consistent linear order exactly once**: for a ranking whose positions are duplicate-free
+the expansion lists no order twice -/
+theorem linearise_nodup (r : Ranking) (h : ∀ s ∈ r, s.Nodup) : (linearise r).Nodup := by
+  induction r with
+  | nil => simp [linearise]
+  | cons s rest ih =>
+    have hs := perms_nodup s (h s (by simp))
+    have hrest := ih (fun t ht => h t (by simp [ht]))
+    simp only [linearise]
+    rw [List.nodup_flatMap]
+    refine ⟨?_, ?_⟩
+    · intro o1 _
+      exact hrest.map (fun a b hab => List.append_cancel_left hab)
+    · refine List.Pairwise.imp_of_mem ?_ hs
+      intro o1 o1' ho1 ho1' hne
+      intro o ho ho'
+      obtain ⟨t, _, rfl⟩ := List.mem_map.1 ho
+      obtain ⟨t', _, heq⟩ := List.mem_map.1 ho'
+      -- both prefixes are rearrangements of `s`, so they have the same length and must coincide
+      have hl : o1.length = o1'.length := by
+        rw [((mem_perms_iff s o1).1 ho1).length_eq, ((mem_perms_iff s o1').1 ho1').length_eq]
+      exact hne (List.append_inj_left heq.symm hl)
+
 theorem fact_pos (n : Nat) : 0 < fact n := by
   induction n with
   | zero => simp [fact]
